@@ -161,26 +161,26 @@ CLAIMED = {
 
 # dimensions added by the seeded-change waves h and i (DESIGN.md C5), appended to the level text
 ADDENDA = {
-    "C01": "Now and then one event type has 13-40 pipelines; histories contain removals of unknown ids; some Sends pass an *Event of the sent type as payload (it must arrive as the payload); a task may remove a pipeline while Sends are in flight (a started traversal is carried through). Nodes may be registered behind a decorator (NodeUnwrapper) with no Closer in its chain: the decorator is what must be invoked.",
-    "C02": "Now and then one event type has 13-40 pipelines (more completions than any fixed-size buffer). Scenario status-after-rebinding: registry histories in which node ids are re-bound to nodes of another kind between Sends; Complete / CompleteSinks are checked against the nodes that ran. While two tasks set the two thresholds of a new event type a third one reads: a type that is known has at least one of the values in force.",
-    "C03": "A root node may send an event of its own type from Process (bounded chain); the nested type may have a stock cloudevents formatter whose signer calls Rotate. Scenario stock-sinks: pipelines ending in the library's own sinks, Sends under contexts of several kinds (a foreign Context type among them); the goroutines of the simulation bubble are counted before and after, so goroutines the standard library starts on the library's behalf are seen; stdout / stderr sinks on failing streams. The rendezvous scenario (inner nodes of several pipelines wait for one another) also runs here: such nodes return, so Send must. Some stock-sinks runs have nobody reading the channel (every waiting write gives up after the sink's timeout). One context kind reports a near deadline and is never done: sinks rely on their own timeout.",
-    "C04": "Callers overwrite the NodeIDs slice they passed once RegisterPipeline has returned (history and race detector see a retained slice). In some runs every node's Close fails, so one RemovePipelineAndNodes collects several failures. Some Sends are made with a context that is already done. In some runs all clients make their RegisterNode calls from ONE option slice with a nil placeholder; the slice must stay as it was (state check, history, race detector).",
-    "C05": "Ids made of white space only (' ', tab, U+00A0) are ids; one call may carry two different valid policy options (the last decides). Concurrent histories have failing Close calls, RemoveNode and RegisterNode; a RemoveNode that fails because Close failed and has removed the node all the same is a listed known finding. Policy values that are the constants in another letter case are invalid values.",
-    "C06": "The concurrent scenario registers on a fresh event type while threshold setters touch it. Nodes may sit behind a decorator that is a Closer and a NodeUnwrapper (its Close is the one to call). One node instance may be registered under two ids (accounting is per id); by-value nodes of non-comparable types are registered too. Type() of a listed node may panic during RegisterPipeline (the caller recovers): nothing is registered, nothing stays pinned.",
+    "C01": "Now and then one event type has 13-40 pipelines; histories contain removals of unknown ids; some Sends pass an *Event of the sent type as payload (it must arrive as the payload); a task may remove a pipeline while Sends are in flight (a started traversal is carried through). Nodes may be registered behind a decorator (NodeUnwrapper) with no Closer in its chain: the decorator is what must be invoked. Pipelines are also removed together with their nodes under a done context; what the call reports decides what counts as registered.",
+    "C02": "Now and then one event type has 13-40 pipelines (more completions than any fixed-size buffer). Scenario status-after-rebinding: registry histories in which node ids are re-bound to nodes of another kind between Sends; Complete / CompleteSinks are checked against the nodes that ran. While two tasks set the two thresholds of a new event type a third one reads: a type that is known has at least one of the values in force. Scenario status-after-concurrent-change: pipelines are registered and removed while events are sent; afterwards a Send reports exactly the registered pipelines' sinks and meets a sink threshold equal to their number.",
+    "C03": "A root node may send an event of its own type from Process (bounded chain); the nested type may have a stock cloudevents formatter whose signer calls Rotate. Scenario stock-sinks: pipelines ending in the library's own sinks, Sends under contexts of several kinds (a foreign Context type among them); the goroutines of the simulation bubble are counted before and after, so goroutines the standard library starts on the library's behalf are seen; stdout / stderr sinks on failing streams. The rendezvous scenario (inner nodes of several pipelines wait for one another) also runs here: such nodes return, so Send must. Some stock-sinks runs have nobody reading the channel (every waiting write gives up after the sink's timeout). One context kind reports a near deadline and is never done: sinks rely on their own timeout. No-consumer runs may start a pipeline with the gated filter, whose inner Sends (expired groups) fail when a sink gives up.",
+    "C04": "Callers overwrite the NodeIDs slice they passed once RegisterPipeline has returned (history and race detector see a retained slice). In some runs every node's Close fails, so one RemovePipelineAndNodes collects several failures. Some Sends are made with a context that is already done. In some runs all clients make their RegisterNode calls from ONE option slice with a nil placeholder; the slice must stay as it was (state check, history, race detector). Clients share one Option value built from an invalid policy (each such call is refused; the race detector watches the shared value).",
+    "C05": "Ids made of white space only (' ', tab, U+00A0) are ids; one call may carry two different valid policy options (the last decides). Concurrent histories have failing Close calls, RemoveNode and RegisterNode; a RemoveNode that fails because Close failed and has removed the node all the same is a listed known finding. Policy values that are the constants in another letter case are invalid values. Unused nodes may be reconfigured in place (Type() changes without re-registration): definitions are judged on what Type() says then.",
+    "C06": "The concurrent scenario registers on a fresh event type while threshold setters touch it. Nodes may sit behind a decorator that is a Closer and a NodeUnwrapper (its Close is the one to call). One node instance may be registered under two ids (accounting is per id); by-value nodes of non-comparable types are registered too. Type() of a listed node may panic during RegisterPipeline (the caller recovers): nothing is registered, nothing stays pinned. Nodes may sit behind two nested by-value decorators of one non-comparable type.",
     "C07": "Threshold setters (which create an event type's graph) are part of the concurrent histories. Concurrent histories contain RemoveNode and failing Close calls.",
     "C08": "A non-empty directory named like the oldest rotated file makes the retention clean-up fail; producers re-send events that were reported failed (an event reported failed must not have been written). Events above 32 KiB (the seam's ReadFrom runs the generic copy loop like *os.File, so writes in pieces are scheduling, fault and crash points). Retention floor: whenever the sink removed a file, at least MaxFiles closed files matching its pattern remain (judged in runs without operator renames). External rotation may put a fresh empty file under the old name before Reopen (logrotate create); events submitted after Reopen returned must not land in the renamed-away file.",
-    "C09": "IgnoreTypes may list named look-alikes of ordinary field types and an interface type that no value has: only values of exactly a listed type are exempt. The forwarded event's format table must be independent of the original's. Shapes include a struct held by value as first field and container fields tagged public (the tag says nothing about what is inside). Scenario encrypt-shared-node: several traversals inside one shared filter node at once. Embedded structs whose field names collide or are shadowed. Tag pointers with empty segments (the empty string is a key). Taggable maps with interface keys holding string keys next to int/bool keys that print alike: untagged entries are protected (what tags do outside map[string]interface{} is not claimed).",
+    "C09": "IgnoreTypes may list named look-alikes of ordinary field types and an interface type that no value has: only values of exactly a listed type are exempt. The forwarded event's format table must be independent of the original's. Shapes include a struct held by value as first field and container fields tagged public (the tag says nothing about what is inside). Scenario encrypt-shared-node: several traversals inside one shared filter node at once. Embedded structs whose field names collide or are shadowed. Tag pointers with empty segments (the empty string is a key). Taggable maps with interface keys holding string keys next to int/bool keys that print alike: untagged entries are protected (what tags do outside map[string]interface{} is not claimed). Slices of pointers hold nil pointers (field, payload, map value): everything else is filtered.",
     "C11": "Group ids differ in surrounding white space only; Reopen calls are part of the histories; the harness Gateable keeps the slices ComposeFrom is given and re-checks them at the end of the run; events are processed under done contexts too. Scenario gate-backlog-flush: 3..2600 open groups, FlushAll and Close. The Expiration may be set to 0 (the default again) or below at run time. Payload objects may be re-used under another id after their event was accepted: the event belongs to the id it carried on arrival.",
-    "C10": "Byte fields tagged copy:\"shallow\" (the copy shares their backing arrays) are part of the payload shapes, as are Taggable maps keyed by a named string type. Rotations (also by payload) happen in C10 runs: a rotation payload's salt / info are re-read at the end of the run. The forwarded event is handed to a second encrypt filter (or the same one again): it is that call's input and must stay as it is. All-none configurations may carry stray entries under other keys (unknown, wrong-case, custom): the event is still forwarded unchanged.",
-    "C12": "Now and then an event type has 66-95 pipelines whose second node Sends from Process. The pipeline's nodes may be registered with an explicit registration policy. Some Sends are cancelled in flight; a second pipeline may end in a FileSink whose writes fail outright. Wrappers that unwrap to nil, failing expiry flushes and every nesting kind are covered; a run that never yields is reported as livelock. Scenario gated-beside-raw: raw pipelines and a gated pipeline (expired groups leave through the same Broker) share each event; tasks are switched inside critical sections as well, and a lock whose state was copied from a locked lock is reported as stuck.",
-    "C13": "Events above 32 KiB in the file runs. The program re-assigns os.Stdout / os.Stderr between events (the seam binds the expression os.Stdout to the stream in force when it is evaluated). Writers that panic once (the caller recovers; the sink must stay usable). Writer failures that are io.EOF, consecutive zero-byte failures and absent channel consumers are injected.",
-    "C15": "File names whose extension text also occurs earlier in the name (ev.login.log, ev.log.log, v1.0.1.0) with a sibling sink's rotated file as decoy; negative MaxDuration. Scenario filesink-rotation-conc: 2-4 writers on a sink that rotates on nearly every write; timestamps must increase in creation order and retention must remove the oldest. The directory may be removed without telling the sink. Look-alike neighbours without the '-' separator are decoys too. Rotated files with timestamps in the future (left by a run whose clock was ahead). Configured modes include setgid and sticky bits (compared beyond the permission bits).",
-    "C16": "Event ids carry leading / trailing white space (the derived key depends on the exact id); partial rotations race in scenario encrypt-rotate-partial; some runs use one event id for every event; salts and infos of lengths 1..300; a rotation may re-key the wrapper object in place. encrypt-rotate-conc also runs in the race binary, with payloads that carry per-event key information, and with a second, unrelated filter working beside the first. The filter may start without salt and/or info; rotations bring them.",
-    "C17": "Reopen calls are part of the histories: they must leave the gate as it is. The clock (NowFunc) may step back; events are processed under done contexts too; injected compose failures may wrap ErrInvalidParameter; negative expirations; the NowFunc may be replaced at run time (the old source then stands still).",
-    "C18": "Injected signer failures may be panics (Process is called under recover: a propagating panic is accepted, an unsigned document is not); a pre-occupied format slot must be replaced. Listed type names may contain * and ? (names, not patterns). Source / Schema are changed on the live node between events (each event is judged against the configuration in force). Payloads that can be rendered only once per call (the signed document needs a second rendering). Payloads whose ID() is not idempotent (the id is the value of ONE call). Source / Schema values that are not the zero URL yet render as the empty string are invalid. A failing signer may give up with the context's own error after the caller's context was cancelled while it signed.",
-    "C14": "The empty string is one of the format table's keys. Format-table values include nil and empty slices (an entry with a nil value exists); formatters are called under done contexts too (no difference allowed); strings and event types contain the TEXT of JSON escapes (\\u003c ...). json.RawMessage payloads, valid over several lines and invalid. Payloads whose marshaler looks at and adds to the event's format table.",
-    "C19": "The cloudevents formatter may have a Schema. Payloads with per-event key material, some refused for an empty event id. The cloudevents signer may renew itself (Rotate from inside the signer). Two FileSink nodes configured for one file (whole lines rely on appending writes); the channel consumer may be away or absent. Two cloudevents formatters are configured from one unsorted list of event types to sign; the list must read the same after the run.",
-    "C20": "Event types and pipeline ids collide under concatenation ('ta'+'p/0' vs 'ta/p'+'0'); threshold setters create graphs that Reopen must also walk. Nodes that share an address (a sink owning its formatter as first field, zero-size node types) are registered; tee pipelines (formatter, sink, formatter, sink); two nodes may fail in one call, with errors of a non-comparable dynamic type; failures wrap os.ErrClosed, io.EOF, context.Canceled, os.ErrNotExist. Some Brokers serve 8-13 further event types; in half of those runs every one of their sinks fails to reopen and each Reopen call must return one of the errors.",
+    "C10": "Byte fields tagged copy:\"shallow\" (the copy shares their backing arrays) are part of the payload shapes, as are Taggable maps keyed by a named string type. Rotations (also by payload) happen in C10 runs: a rotation payload's salt / info are re-read at the end of the run. The forwarded event is handed to a second encrypt filter (or the same one again): it is that call's input and must stay as it is. All-none configurations may carry stray entries under other keys (unknown, wrong-case, custom): the event is still forwarded unchanged. One Taggable map type hands out a tag table it keeps; the table must read the same after Process.",
+    "C12": "Now and then an event type has 66-95 pipelines whose second node Sends from Process. The pipeline's nodes may be registered with an explicit registration policy. Some Sends are cancelled in flight; a second pipeline may end in a FileSink whose writes fail outright. Wrappers that unwrap to nil, failing expiry flushes and every nesting kind are covered; a run that never yields is reported as livelock. Scenario gated-beside-raw: raw pipelines and a gated pipeline (expired groups leave through the same Broker) share each event; tasks are switched inside critical sections as well, and a lock whose state was copied from a locked lock is reported as stuck. Scenario encrypt-in-broker: refused events (missing wrapper for a field's own operation), filtered events, rotation events and direct Rotate calls in any order from several senders; every call returns.",
+    "C13": "Events above 32 KiB in the file runs. The program re-assigns os.Stdout / os.Stderr between events (the seam binds the expression os.Stdout to the stream in force when it is evaluated). Writers that panic once (the caller recovers; the sink must stay usable). Writer failures that are io.EOF, consecutive zero-byte failures and absent channel consumers are injected. Partial writes may fail with errors that call themselves temporary (EAGAIN, EINTR, deadline).",
+    "C15": "File names whose extension text also occurs earlier in the name (ev.login.log, ev.log.log, v1.0.1.0) with a sibling sink's rotated file as decoy; negative MaxDuration. Scenario filesink-rotation-conc: 2-4 writers on a sink that rotates on nearly every write; timestamps must increase in creation order and retention must remove the oldest. The directory may be removed without telling the sink. Look-alike neighbours without the '-' separator are decoys too. Rotated files with timestamps in the future (left by a run whose clock was ahead). Configured modes include setgid and sticky bits (compared beyond the permission bits). File names may carry a directory component or percent signs.",
+    "C16": "Event ids carry leading / trailing white space (the derived key depends on the exact id); partial rotations race in scenario encrypt-rotate-partial; some runs use one event id for every event; salts and infos of lengths 1..300; a rotation may re-key the wrapper object in place. encrypt-rotate-conc also runs in the race binary, with payloads that carry per-event key information, and with a second, unrelated filter working beside the first. The filter may start without salt and/or info; rotations bring them. Keys are 16, 24 or 32 bytes long.",
+    "C17": "Reopen calls are part of the histories: they must leave the gate as it is. The clock (NowFunc) may step back; events are processed under done contexts too; injected compose failures may wrap ErrInvalidParameter; negative expirations; the NowFunc may be replaced at run time (the old source then stands still). The Sender succeeds with warnings every third call (a success like any other).",
+    "C18": "Injected signer failures may be panics (Process is called under recover: a propagating panic is accepted, an unsigned document is not); a pre-occupied format slot must be replaced. Listed type names may contain * and ? (names, not patterns). Source / Schema are changed on the live node between events (each event is judged against the configuration in force). Payloads that can be rendered only once per call (the signed document needs a second rendering). Payloads whose ID() is not idempotent (the id is the value of ONE call). Source / Schema values that are not the zero URL yet render as the empty string are invalid. A failing signer may give up with the context's own error after the caller's context was cancelled while it signed. Source and schema URLs may carry user information (rendered as configured).",
+    "C14": "The empty string is one of the format table's keys. Format-table values include nil and empty slices (an entry with a nil value exists); formatters are called under done contexts too (no difference allowed); strings and event types contain the TEXT of JSON escapes (\\u003c ...). json.RawMessage payloads, valid over several lines and invalid. Payloads whose marshaler looks at and adds to the event's format table. Payloads include typed nils of named slice/map types with their own marshalers.",
+    "C19": "The cloudevents formatter may have a Schema. Payloads with per-event key material, some refused for an empty event id. The cloudevents signer may renew itself (Rotate from inside the signer). Two FileSink nodes configured for one file (whole lines rely on appending writes); the channel consumer may be away or absent. Two cloudevents formatters are configured from one unsorted list of event types to sign; the list must read the same after the run. A sink that misses the rendering its own pipeline's formatter stored (\"event was not marshaled\") is a lost format-table entry.",
+    "C20": "Event types and pipeline ids collide under concatenation ('ta'+'p/0' vs 'ta/p'+'0'); threshold setters create graphs that Reopen must also walk. Nodes that share an address (a sink owning its formatter as first field, zero-size node types) are registered; tee pipelines (formatter, sink, formatter, sink); two nodes may fail in one call, with errors of a non-comparable dynamic type; failures wrap os.ErrClosed, io.EOF, context.Canceled, os.ErrNotExist. Some Brokers serve 8-13 further event types; in half of those runs every one of their sinks fails to reopen and each Reopen call must return one of the errors. Node ids contain percent signs; a failure counts as carried through the error chain or in a well-formed message.",
 }
 
 PENDING = ["C04", "C05", "C06", "C07", "C08", "C09", "C10", "C11", "C12", "C13", "C14", "C15", "C16", "C17", "C18", "C19", "C20"]
